@@ -463,6 +463,7 @@ fn is_split_required(transform: &SqlTransform, following: &mut HashSet<String>) 
                 "Sort",
                 "Take",
                 "DistinctOn",
+                "Distinct",
             ],
         ),
         SqlTransform::Distinct => contains_any(
@@ -475,6 +476,7 @@ fn is_split_required(transform: &SqlTransform, following: &mut HashSet<String>) 
                 "Aggregate",
                 "Sort",
                 "Take",
+                "DistinctOn",
             ],
         ),
         SqlTransform::Union { .. }
